@@ -346,6 +346,13 @@ def _contract(spec, per_resp):
     return np.einsum(subs, per_resp, *[a for _, a in ops])
 
 
+def _contract_extra(spec, per_resp, extra):
+    """Like _contract, with one more trailing axis from `extra` (N, k)."""
+    ops, out, _ = _operands(spec)
+    subs = ",".join(["i"] + [s for s, _ in ops] + ["iz"]) + "->" + out + "z"
+    return np.einsum(subs, per_resp, *([a for _, a in ops] + [extra]))
+
+
 def _flat(a):
     return [float(x) for x in np.asarray(a, dtype=float).ravel()]
 
@@ -424,6 +431,20 @@ def build_response(spec, envelope=None):
         if "sq_weights" in spec.measures:
             measures["weighted_squared_count"] = {
                 "data": _flat(_contract(spec, w * w)), "n_missing": 0}
+        if "overlap" in spec.measures and spec.facets and spec.facets[-1][0] == "mr":
+            mrv = spec.facets[-1][1]
+            sel_ = (mrv.state == SEL).astype(float)
+            ans_ = (mrv.state != MIS).astype(float)
+            omd = {"derived": True,
+                   "references": {"alias": mrv.alias, "name": mrv.name,
+                                  "subreferences": _subrefs(mrv.items)},
+                   "type": {"class": "numeric", "integer": spec.weight is None,
+                            "subvariables": [it["subvar_id"] for it in mrv.items],
+                            "missing_reasons": {"No Data": -1}, "missing_rules": {}}}
+            measures["overlap"] = {"data": _flat(_contract_extra(spec, w, sel_)),
+                                   "n_missing": 0, "metadata": omd}
+            measures["valid_overlap"] = {"data": _flat(_contract_extra(spec, w, ans_)),
+                                         "n_missing": 0, "metadata": copy.deepcopy(omd)}
         xv = spec.numvar
         if xv is not None and spec.measures & {"mean", "sum", "stddev", "median",
                                                 "valid_counts"}:
